@@ -57,7 +57,7 @@ KINDS = ("logistic", "linear", "shared_speed_logistic", "joint", "mixture_logist
 
 def shards(tier, seed):
     q = tier == "quick"
-    return [{"name": f"models-{k}", "k": k, "n": 14 if q else 1200, "budget_s": 75 if q else 800, "timeout": 600 if q else 3000} for k in range(N_SHARDS)]
+    return [{"name": f"models-{k}", "k": k, "n": 14 if q else 2000, "budget_s": 75 if q else 800, "timeout": 600 if q else 3000} for k in range(N_SHARDS)]
 
 
 # --------------------------------------------------------------------------------------
